@@ -23,6 +23,7 @@ HARNESS_MODULES = {
     'C05': ['c05_canonical'],
     'C06': ['c06_tls_layout'],
     'C07': ['c07_ssh:shards_c07'],
+    'C08': ['c08_dns'],
     'C09': ['c09_apps'],
     'C10': ['c10_codes'],
     'C11': ['c11_prims'],
